@@ -273,6 +273,11 @@ DEBUG_NAMES = [b'a b', b'foo(int)', b'core::fmt<T>', b'acc.1', b'acc_1', b'acc$1
                b'a@plt', b'a*/b', b'a\nb', b"it's", b'<alloc::vec::Vec<T> as core::ops::Drop>::drop', b'legalstub$acc', b'1abc', b'0']
 
 
+# families of DIFFERENT names that any lossy clean-up maps to one symbol
+LOOKALIKES = [[b'acc.1', b'acc_1', b'acc$1', b'acc 1', b'acc-1', b'acc:1'], [b'a__b', b'a_b', b'a___b', b'a_X5Fb', b'aX5Fb'], [b'f(int)', b'f(int )', b'f_int_', b'f<int>'],
+              [b'x', b'X', b'X78', b'x ', b' x'], [b'n\xc3\xa9', b'n\xc3\xa8', b'n__', b'nXC3XA9'], [b'A::b', b'A__b', b'A..b', b'A:_b']]
+
+
 def gen_case(ch, params):
     if params.get('big'):
         # many functions (so that several files are written at the same time), atomics with static offsets included
@@ -291,9 +296,19 @@ def gen_case(ch, params):
             # what name sections of real modules hold: demangled C++ / Rust names (blanks, parentheses, angle brackets, colons),
             # compiler-generated names with dots and dollars, names that differ only in a byte outside [A-Za-z0-9_], names that
             # look like the translator's own escapes, quotes and backslashes
+            pool = DEBUG_NAMES if ch.below(2) else ch.pick(LOOKALIKES)
             for i in range(len(m.funcs)):
                 if ch.below(3):
-                    m.func_names[ni + i] = ch.pick(DEBUG_NAMES)
+                    m.func_names[ni + i] = ch.pick(pool)
+            if pool is not DEBUG_NAMES:
+                # debug names matter for functions that are NOT exported: make sure there are some (internal helpers nobody calls
+                # are valid) and that they carry different members of the family
+                exported = set(i for n, kd, i in m.exports if kd == 'func')
+                for _ in range(2 + ch.below(3)):
+                    m.funcs.append(wasm.Func(m.type_index((), (wasm.I32,)), [], [('i32.const', len(m.funcs))]))
+                internal = [ni + i for i in range(len(m.funcs)) if ni + i not in exported]
+                for k, fi in enumerate(internal):
+                    m.func_names[fi] = pool[(k + ch.below(2)) % len(pool)]
                     if ch.below(4) == 0:
                         m.func_names[ni + i] += b'%d' % ch.below(3)
     return mk, m, script, meta
